@@ -358,4 +358,23 @@ def parseNum (s : List Char) : Except NumErr Nat :=
   | some ch => if '1' ≤ ch ∧ ch ≤ '9' then u32FromStr s else throw .invalidLeadingDigit
   | none => u32FromStr s
 
+/-- errors of `parse_num_nonzero` -/
+inductive NzErr | illegalZero | num (e : NumErr)
+deriving DecidableEq, Repr
+
+/-- `parse_num_nonzero` -/
+def parseNumNonzero (s : List Char) : Except NzErr Nat :=
+  if s = ['0'] then throw .illegalZero else
+  match s.head? with
+  | some ch =>
+    if '1' ≤ ch ∧ ch ≤ '9' then
+      match u32FromStr s with
+      | .ok n => pure n
+      | .error e => throw (.num e)
+    else throw (.num .invalidLeadingDigit)
+  | none =>
+    match u32FromStr s with
+    | .ok n => pure n
+    | .error e => throw (.num e)
+
 end MsVerif.Expr
